@@ -314,7 +314,8 @@ Section Inner.
   Lemma nf_dec_vendor_data et d : (length d < bound)%nat -> nf (dec_vendor_data parse_inner et d).
   Proof.
     intros Hb. unfold dec_vendor_data. nfwalk4.
-    - pose proof (from_len _ _ _ H1) as Hl. apply from_le in H1. apply inner_nf. unfold blen in *. lia.
+    - match goal with H : sl d 8 _ = Ok ?r |- nf (parse_inner ?r) =>
+        pose proof (sl_len _ _ _ _ H) as Hl; apply inner_nf; unfold blen in *; lia end.
     - apply nf_dec_props; [lia|unfold blen; lia].
   Qed.
 
